@@ -6,7 +6,7 @@
    filters and of the set-theoretic queries. *)
 From Coq Require Import String ZArith List Bool.
 From XV Require Import Base.Label Base.LSet Base.ODict Base.Attr Base.Outcome Model.Hypergraph Model.Stats
-  Proofs.HgViews Proofs.HgInv Proofs.StatsProofs Model.DiHypergraph Proofs.DiInv.
+  Proofs.HgViews Proofs.HgInv Proofs.StatsProofs Model.DiHypergraph Proofs.DiInv Proofs.DuplicatesProofs.
 Import ListNotations.
 Open Scope Z_scope.
 
@@ -84,6 +84,24 @@ Theorem C06_maximal_spec : forall s e, Inv s ->
   (In e (maximal false s) <-> In e (ekeys s) /\ forall f, In f (ekeys s) -> Contains s e f -> SameMembers s e f).
 Proof. exact maximal_spec. Qed.
 Print Assumptions C06_maximal_spec.
+
+(* duplicates(): for every repeated member set all edges but exactly one are listed - every listed edge has an
+   unlisted twin with the same members, and of two different edges with the same members at least one is listed *)
+Theorem C06_duplicates_one_representative : forall s, Inv s ->
+  (forall e, In e (duplicates SEdge s) ->
+     In e (ekeys s) /\ exists f, In f (ekeys s) /\ f <> e /\ seteq (mems s f) (mems s e) /\ ~ In f (duplicates SEdge s)) /\
+  (forall e f, In e (ekeys s) -> In f (ekeys s) -> e <> f -> seteq (mems s e) (mems s f) ->
+     In e (duplicates SEdge s) \/ In f (duplicates SEdge s)).
+Proof. exact duplicates_spec. Qed.
+Print Assumptions C06_duplicates_one_representative.
+
+(* filterby_attr: exactly the ids of the view whose integer attribute - the `missing` value when the id has no
+   such attribute - satisfies the comparison (in view order, being a filter of the view) *)
+Theorem C06_filterby_attr_exact : forall k view name missing m v s x,
+  In x (filterby_attr k view name missing m v s) <->
+  In x view /\ exists z, attr_stat k name missing s x = AInt z /\ fcmp m z v = true.
+Proof. exact filterby_attr_exact. Qed.
+Print Assumptions C06_filterby_attr_exact.
 
 Example C06_nonvacuous :
   let s := run [OAddEdgesFrom (EB1 [[LInt 1; LInt 2; LInt 3]; [LInt 1; LInt 2]; [LInt 3; LInt 4]; [LInt 1; LInt 2]]) []] hg_empty in
